@@ -200,11 +200,12 @@ func c10WriteSet(dir, tmp string, t *cargen.Truth, id c10Ident, roles map[string
 }
 
 type c10World struct {
-	A, B    *vEpoch
-	AA      c10Set            // A's real indexes
-	BBr     c10Set            // B's real indexes
-	V       map[string]c10Set // "epoch" (B's epoch, A's root), "root" (A's epoch, B's root), "epoch+root"
-	innerPk string            // the pubkey index inside A's gsfa directory
+	A, B       *vEpoch
+	AA         c10Set            // A's real indexes
+	BBr        c10Set            // B's real indexes
+	V          map[string]c10Set // "epoch" (B's epoch, A's root), "root" (A's epoch, B's root), "epoch+root"
+	innerPk    string            // the pubkey index inside A's gsfa directory
+	remoteBase string            // loopback file server (cases with Remote)
 }
 
 func c10RealSet(e *vEpoch) c10Set {
@@ -318,6 +319,7 @@ type c10Case struct {
 	Car    string     `json:"car,omitempty"`    // "" = A's CAR; "B"
 	Config string     `json:"config,omitempty"` // "" = A's; "B" = B's configuration
 	NoGsfa bool       `json:"no_gsfa,omitempty"`
+	Remote bool       `json:"remote,omitempty"` // the CAR and every index file are served over HTTP (loopback)
 }
 
 func (c c10Case) label() string {
@@ -328,6 +330,9 @@ func (c c10Case) label() string {
 	s := strings.Join(p, " + ")
 	if c.Name != "" {
 		s = c.Name + " " + s
+	}
+	if c.Remote {
+		s += " [files over HTTP]"
 	}
 	return strings.TrimSpace(s)
 }
@@ -350,7 +355,11 @@ func (w *c10World) load(c c10Case, tag string) (ep *Epoch, err error, pan string
 	for _, f := range c.Faults {
 		over[f.Role] = w.path(f)
 	}
-	cfg := e.writeConfig(vkConfigOpts{Name: "c10-" + tag, Overrides: over, CarURI: car, NoGsfa: c.NoGsfa})
+	remoteBase := ""
+	if c.Remote {
+		remoteBase = w.remoteBase
+	}
+	cfg := e.writeConfig(vkConfigOpts{Name: "c10-" + tag, Overrides: over, CarURI: car, NoGsfa: c.NoGsfa, RemoteBase: remoteBase})
 	func() {
 		defer func() {
 			if x := recover(); x != nil {
@@ -646,6 +655,15 @@ func TestVerif_C10(t *testing.T) {
 	for _, f := range faults {
 		cases = append(cases, c10Case{Faults: []c10Fault{f}})
 	}
+	// the same controls and single faults with every file fetched over HTTP (remote index files are opened, and may be
+	// validated, through another path than local ones)
+	remoteBase, stopRemote := vkServeFiles()
+	defer stopRemote()
+	w.remoteBase = remoteBase
+	cases = append(cases, c10Case{Name: "control: fault-free", Remote: true})
+	for _, f := range faults {
+		cases = append(cases, c10Case{Faults: []c10Fault{f}, Remote: true})
+	}
 	nSingles := len(cases)
 	for i := range faults {
 		for j := i + 1; j < len(faults); j++ {
@@ -655,7 +673,7 @@ func TestVerif_C10(t *testing.T) {
 			cases = append(cases, c10Case{Faults: []c10Fault{faults[i], faults[j]}})
 		}
 	}
-	R.Bounds["single_fault_cases"] = len(faults)
+	R.Bounds["single_fault_cases"] = fmt.Sprintf("%d with local files + %d with every file over HTTP", len(faults), len(faults))
 	R.Bounds["pair_cases"] = len(cases) - nSingles
 	if vkit.Thorough() {
 		// all triples of identity faults (no role swaps) on three different roles
